@@ -133,6 +133,7 @@ def main():
     ap.add_argument('--only')
     ap.add_argument('--jobs', type=int, default=int(os.environ.get('SYMX_JOBS', '16')))
     ap.add_argument('--no-evidence', action='store_true')
+    ap.add_argument('--slow', action='store_true', help='print the slowest instances')
     a = ap.parse_args()
     prop_id = a.prop
     seed = int(os.environ.get('VERIF_SEED', '0') or 0)
@@ -168,6 +169,9 @@ def main():
                 results.append(r)
     results.sort(key=lambda r: r['idx'])
 
+    if a.slow:
+        for r in sorted(results, key=lambda r: -r['wall'])[:8]:
+            print('SLOW %.1fs paths=%s %s %s' % (r['wall'], r['stats'] and r['stats']['paths'], insts[r['idx']]['h'], json.dumps(insts[r['idx']].get('p', {}))[:150]))
     total = core.Stats()
     errors, inconclusive, candidates = [], [], []
     samples = []
